@@ -458,7 +458,7 @@ func distributeExtraSpace(context *layoutContext, affectedSizes, affectedTracksT
 }
 
 // direction : 'x' or 'y'
-func resolveTracksSizes(context *layoutContext, sizingFunctions [][2]pr.DimOrS, boxSize pr.MaybeFloat, childrenPositions map[Box]rect,
+func resolveTracksSizes(context *layoutContext, sizingFunctions [][2]pr.DimOrS, boxSize pr.MaybeFloat, childrenPositions map[Box]rect, placedChildren []Box,
 	implicitStart int, direction byte, gap pr.Float,
 	containingBlock bo.Box, orthogonalSizes [][2]pr.Float,
 ) [][2]pr.Float {
@@ -500,7 +500,8 @@ func resolveTracksSizes(context *layoutContext, sizingFunctions [][2]pr.DimOrS, 
 	// TODO: Shim items.
 	// 1.2.2 Size tracks to fit non-spanning items.
 	tracksChildren := make([][]Box, len(tracksSizes))
-	for child, rect := range childrenPositions {
+	for _, child := range placedChildren {
+		rect := childrenPositions[child]
 		x, y, width, height := rect.unpack()
 		coord, size := y, height
 		if direction == 'x' {
@@ -620,7 +621,8 @@ func resolveTracksSizes(context *layoutContext, sizingFunctions [][2]pr.DimOrS, 
 	for _, span := range spans {
 		tracksChildren := make([][]Box, len(sizingFunctions))
 		i := -1
-		for child, rect := range childrenPositions {
+		for _, child := range placedChildren {
+			rect := childrenPositions[child]
 			i++
 			x, y, width, height := rect.unpack()
 			coord, size := x, width
@@ -656,7 +658,8 @@ func resolveTracksSizes(context *layoutContext, sizingFunctions [][2]pr.DimOrS, 
 			}
 		}
 		i = -1
-		for child, rect := range childrenPositions {
+		for _, child := range placedChildren {
+			rect := childrenPositions[child]
 			i++
 			x, y, width, height := rect.unpack()
 			coord, size := x, width
@@ -968,6 +971,16 @@ func gridLayout(context *layoutContext, box_ Box, bottomSpace pr.Float, skipStac
 
 	// 1.1 Position anything that’s not auto-positioned.
 	childrenPositions := map[Box]rect{}
+	// keys of childrenPositions in insertion order: the track sizing walks the
+	// items in the order they were placed (iterating the map itself would make
+	// the layout depend on Go's random map order)
+	var placedChildren []Box
+	setPosition := func(child Box, r rect) {
+		if _, has := childrenPositions[child]; !has {
+			placedChildren = append(placedChildren, child)
+		}
+		childrenPositions[child] = r
+	}
 	for _, child := range box.Children {
 		columnStart := child.Box().Style.GetGridColumnStart()
 		columnEnd := child.Box().Style.GetGridColumnEnd()
@@ -979,7 +992,7 @@ func gridLayout(context *layoutContext, box_ Box, bottomSpace pr.Float, skipStac
 		if columnPlacement.isNotNone() && rowPlacement.isNotNone() {
 			x, width := columnPlacement.unpack()
 			y, height := rowPlacement.unpack()
-			childrenPositions[child] = rect{x, y, width, height}
+			setPosition(child, rect{x, y, width, height})
 		}
 	}
 
@@ -1002,7 +1015,7 @@ func gridLayout(context *layoutContext, box_ Box, bottomSpace pr.Float, skipStac
 		columnEnd := child.Box().Style.GetGridColumnEnd()
 		x, width := getColumnPlacement(rowPlacement, columnStart, columnEnd, extractNames(columns),
 			childrenPositions, utils.IsIn(flow, "dense")).unpack()
-		childrenPositions[child] = [4]int{x, y, width, height}
+		setPosition(child, rect{x, y, width, height})
 	}
 
 	// 1.3 Determine the columns in range the implicit grid.
@@ -1107,7 +1120,7 @@ func gridLayout(context *layoutContext, box_ Box, bottomSpace pr.Float, skipStac
 					implicitY2 = y + height
 				}
 				// 3. Set the item’s row-start line.
-				childrenPositions[child] = rect{x, y, width, height}
+				setPosition(child, rect{x, y, width, height})
 			} else {
 				// 1. Set the cursor’s row && column positions.
 				cursorX, cursorY = implicitX1, implicitY1
@@ -1140,7 +1153,7 @@ func gridLayout(context *layoutContext, box_ Box, bottomSpace pr.Float, skipStac
 						} else {
 							// Free place found.
 							// 3. Set the item’s row-/column-start lines.
-							childrenPositions[child] = [4]int{x, y, width, height}
+							setPosition(child, rect{x, y, width, height})
 							yDiff := cursorY + height - 1 - implicitY2
 							if yDiff > 0 {
 								for c := 0; c < yDiff; c++ {
@@ -1221,7 +1234,7 @@ func gridLayout(context *layoutContext, box_ Box, bottomSpace pr.Float, skipStac
 					}
 					implicitY2 = y + height
 				} // 3. Set the item’s row-start line.
-				childrenPositions[child] = [4]int{x, y, width, height}
+				setPosition(child, rect{x, y, width, height})
 			} else {
 				for {
 					// 1. Increment the column position of the cursor.
@@ -1254,7 +1267,7 @@ func gridLayout(context *layoutContext, box_ Box, bottomSpace pr.Float, skipStac
 						} else {
 							// Free place found.
 							// 2. Set the item’s row-/column-start lines.
-							childrenPositions[child] = [4]int{x, y, width, height}
+							setPosition(child, rect{x, y, width, height})
 							hasBroken = true
 							break
 						}
@@ -1321,11 +1334,11 @@ func gridLayout(context *layoutContext, box_ Box, bottomSpace pr.Float, skipStac
 	columnSizingFunctions := extractDims(columns)
 
 	// 3.1 Resolve the sizes of the grid columns.
-	columnsSizes := resolveTracksSizes(context, columnSizingFunctions, box.Width, childrenPositions, implicitX1,
+	columnsSizes := resolveTracksSizes(context, columnSizingFunctions, box.Width, childrenPositions, placedChildren, implicitX1,
 		'x', columnGap, box_, nil)
 
 	// 3.2 Resolve the sizes of the grid rows.
-	rowsSizes := resolveTracksSizes(context, rowSizingFunctions, box.Height, childrenPositions, implicitY1,
+	rowsSizes := resolveTracksSizes(context, rowSizingFunctions, box.Height, childrenPositions, placedChildren, implicitY1,
 		'y', rowGap, box_, columnsSizes)
 
 	// 3.3 Re-resolve the sizes of the grid columns with min-/max-content.
